@@ -851,6 +851,9 @@ class Run:
             modname = f"vmon_dyn_{uid}_x{len(getattr(self, 'extra_mods', []))}"
             mod = types.ModuleType(modname)
             mod.__dict__.update(ns)
+            if self.mod is not None:
+                # module-level helper objects the class body refers to (bound-method callbacks)
+                mod.__dict__.update({k_: v_ for k_, v_ in self.mod.__dict__.items() if k_.startswith(("HB_", "Helper_"))})
             self.extra_mods = getattr(self, "extra_mods", []) + [modname]
             sys.modules[modname] = mod
             if standalone:
